@@ -21,13 +21,12 @@ Qed.
 
 Lemma sm_rel s out : sm s = Ok out -> sortmerge_rel s out.
 Proof.
-  unfold sm, sortmerge_rel. destruct s as [|a [|b t]].
-  - intros H. inversion H. left. cbn. split; [lia | reflexivity].
-  - intros H. inversion H. left. cbn. split; [lia | reflexivity].
-  - destruct (has_conflict (a :: b :: t)) eqn:C; [discriminate|].
-    destruct (sorted_cmp (sort_refs (a :: b :: t))) eqn:S; [|discriminate].
-    intros H. inversion H. subst out. right. split; [cbn; lia|]. split; [reflexivity|].
-    exists (sort_refs (a :: b :: t)). split; [apply sort_refs_perm|]. split; [exact S | reflexivity].
+  unfold sm, sortmerge_rel. destruct s as [|a t].
+  - intros H. inversion H. split; [reflexivity|]. exists []. split; [constructor|]. split; reflexivity.
+  - destruct (has_conflict (a :: t)) eqn:C; [discriminate|].
+    destruct (sorted_cmp (sort_refs (a :: t))) eqn:S; [|discriminate].
+    intros H. inversion H. subst out. split; [reflexivity|].
+    exists (sort_refs (a :: t)). split; [apply sort_refs_perm|]. split; [exact S | reflexivity].
 Qed.
 
 Lemma exclude_is_rel s exc out : exclude s exc = Ok out -> exclude_rel s exc out.
@@ -37,7 +36,7 @@ Proof.
   - intros H. right. split; [discriminate|].
     destruct (sm (a :: t)) as [s0| | |] eqn:E0; try discriminate. cbn [bind] in H.
     destruct (sm exc) as [s1| | |] eqn:E1; try discriminate. cbn [bind] in H.
-    exists s0, s1. repeat split; try assumption; apply sm_rel; assumption.
+    exists s0, s1. split; [apply sm_rel; assumption|]. split; [apply sm_rel; assumption | assumption].
 Qed.
 
 (** [Exclude()] without arguments ("a copy"): SortAndMerge of the receiver *)
@@ -46,7 +45,7 @@ Proof. destruct s0; reflexivity. Qed.
 Lemma exclude_nil s out : exclude s [] = Ok out -> sortmerge_rel s out.
 Proof.
   unfold exclude. destruct s as [|a t].
-  - intros H. inversion H. left. cbn. split; [lia | reflexivity].
+  - intros H. inversion H. apply sm_rel. reflexivity.
   - destruct (sm (a :: t)) as [s0| | |] eqn:E0; try discriminate. cbn [bind sm].
     rewrite excl_walk_nil. intros H. inversion H. subst out. apply sm_rel. exact E0.
 Qed.
@@ -83,7 +82,7 @@ Section Through.
 
   Lemma sortmerge_Q s out : Forall Q s -> sortmerge_rel s out -> Forall Q out.
   Proof.
-    intros F [(L & ->) | (L & C & s' & P & S & ->)]; [exact F|].
+    intros F (C & s' & P & S & ->).
     apply refs_sm_sorted_Q. eapply Permutation_Forall; eassumption.
   Qed.
 End Through.
@@ -189,6 +188,54 @@ Proof.
   pose proof (excl_walk_pointed s0 s1 out P0 W) as Po.
   destruct out as [|r t]; [congruence|]. inversion Po as [|? ? (k & Hk) _]; subst.
   exists (ai r), (rmap r), k. apply den_cons. left. unfold hit. tauto.
+Qed.
+
+(** *** "the list has at least one byte" as the actors validator tests it *)
+Definition nonneg_ref (r : ref) : Prop := Forall (fun x => 0 <= rlen x) (rranges r).
+
+Lemma okref_nonneg r : okref r -> nonneg_ref r.
+Proof. apply Forall_impl. intros x (_ & H & _). exact H. Qed.
+
+Lemma excl_walk_nonneg : forall s0 s1 out, Forall nonneg_ref s0 -> excl_walk s0 s1 = Ok out -> Forall nonneg_ref out.
+Proof.
+  induction s0 as [|r0 t0 IH0]; intros s1 out F0 E.
+  { destruct s1; inversion E; constructor. }
+  inversion F0 as [|? ? P0 Ft0]; subst.
+  revert out E. induction s1 as [|r1 t1 IH1]; intros out E.
+  { inversion E. subst out. exact F0. }
+  rewrite excl_walk_cons in E. destruct (cmp_ref r0 r1).
+  - destruct (excl_walk t0 (r1 :: t1)) as [rest| | |] eqn:E'; try discriminate. cbn [bind] in E.
+    inversion E. subst out. constructor; [exact P0 | eapply IH0; eassumption].
+  - destruct (excl_walk t0 t1) as [rest| | |] eqn:E'; try discriminate. cbn [bind] in E.
+    pose proof (IH0 t1 rest Ft0 E') as Fr.
+    destruct (exclude_ranges (rranges r0) (rranges r1)) as [|y ys] eqn:X; inversion E; subst out; [exact Fr|].
+    constructor; [|exact Fr]. unfold nonneg_ref, set_ranges. cbn [rranges]. rewrite <- X.
+    apply Forall_forall. intros x I. unfold exclude_ranges in I. apply filter_In in I. destruct I as (I & _).
+    apply in_flat_map in I. destruct I as (r & _ & I). unfold range_exclude in I.
+    pose proof (excl_go_len (ranges_sm (rranges r1)) (roff r) (rend r)) as L. rewrite Forall_forall in L. exact (L x I).
+  - apply IH1. exact E.
+  - discriminate.
+Qed.
+
+Lemma has_bytes_den s : Forall nonneg_ref s -> (has_bytes s = true <-> exists a m k, den s a m k).
+Proof.
+  intros F. unfold has_bytes. rewrite existsb_exists. split.
+  - intros (r & I & H). apply existsb_exists in H. destruct H as (x & Ix & NZ).
+    rewrite Forall_forall in F. specialize (F r I). unfold nonneg_ref in F. rewrite Forall_forall in F. specialize (F x Ix).
+    unfold nonzero in NZ. apply negb_true_iff in NZ. apply Z.eqb_neq in NZ.
+    exists (ai r), (rmap r), (roff x). apply den_in. exists r. split; [exact I|]. unfold hit.
+    split; [reflexivity|]. split; [reflexivity|]. apply Exists_exists. exists x. split; [exact Ix|]. unfold inr. lia.
+  - intros (a & m & k & D). apply den_in in D. destruct D as (r & I & (_ & _ & H)).
+    exists r. split; [exact I|]. apply Exists_exists in H. destruct H as (x & Ix & Hx).
+    apply existsb_exists. exists x. split; [exact Ix|]. unfold nonzero. apply negb_true_iff. apply Z.eqb_neq.
+    unfold inr in Hx. lia.
+Qed.
+
+Lemma exclude_rel_nonneg s exc out : NoOverflow s -> exclude_rel s exc out -> Forall nonneg_ref out.
+Proof.
+  intros O [(-> & ->) | (NE & s0 & s1 & R0 & R1 & W)]; [constructor|].
+  eapply excl_walk_nonneg; [|exact W].
+  eapply Forall_impl; [|exact (sortmerge_ok s s0 O R0)]. intros r. apply okref_nonneg.
 Qed.
 
 (** ** References into artifacts given as image offsets or physical addresses *)
@@ -418,10 +465,6 @@ Section Sizes.
   Definition wf_step (A : list art) (st : step) : Prop :=
     std_refs (s_meas st) /\ arts_in A (s_meas st) /\
     match s_code st with Some c => std_refs c /\ arts_in A c | None => True end.
-  (** every reference of an actor's code has at least one byte *)
-  Definition pos_step (st : step) : Prop :=
-    match s_code st with Some c => Forall pointed c | None => True end.
-
   Definition inv (A : list art) (pre : list step) (measured : list ref) : Prop :=
     nil_over A measured /\ Forall okref measured /\
     forall a j, den measured a MNil j <-> covers (meas_upto pre) a j.
@@ -455,7 +498,7 @@ Section Sizes.
   Qed.
 
   Lemma vap_actor_spec A idx pre prev cur pa st iss pa' :
-    ArtsDist A -> inv A pre prev -> wf_step A st -> pos_step st ->
+    ArtsDist A -> inv A pre prev -> wf_step A st ->
     vap_actor idx prev cur pa st = Ok (iss, pa') ->
     pa' = match s_actor st with Some a => Some a | None => pa end /\
     ((iss = [] /\
@@ -466,7 +509,7 @@ Section Sizes.
         (forall x m j, den nm x m j <-> m = MNil /\ covers code x j /\ ~ covers (meas_upto pre) x j) /\
         exists x j, covers code x j /\ ~ covers (meas_upto pre) x j)).
   Proof.
-    intros AD (Np & Op & Dp) (_ & _ & Wc) Pc. unfold vap_actor, pos_step in *.
+    intros AD (Np & Op & Dp) (_ & _ & Wc). unfold vap_actor in *.
     destruct (s_actor st) as [a|] eqn:Ea.
     2:{ intros H. inversion H. subst. split; [reflexivity|]. left. split; [reflexivity|]. intros (a & code & X & _). discriminate. }
     destruct (opt_eqb (Some a) pa) eqn:Eq.
@@ -481,7 +524,6 @@ Section Sizes.
     pose proof (sortmerge_std _ _ Sc R0) as S0.
     pose proof (sortmerge_arts_in A _ _ Ic R0) as I0.
     pose proof (sortmerge_den _ _ (std_refs_ok _ Sc) R0) as D0.
-    pose proof (sortmerge_pointed _ _ (std_refs_ok _ Sc) Pc R0) as P0.
     rewrite (resolve_std _ S0). cbn [fst snd].
     set (arefs := map res_ref arefs0).
     destruct (exclude arefs prev) as [nm| | |] eqn:E1; try discriminate. cbn [bind].
@@ -496,17 +538,19 @@ Section Sizes.
       split.
       - intros ((-> & C) & ND). split; [reflexivity|]. split; [exact C|]. rewrite <- Dp. exact ND.
       - intros (-> & C & NC). split; [tauto|]. rewrite Dp. exact NC. }
-    destruct nm as [|r t].
-    - intros H. inversion H. subst. split; [reflexivity|]. left. split; [reflexivity|].
-      intros (a' & code' & _ & _ & X & x & j & C & NC). inversion X. subst code'.
-      assert (den [] x MNil j) by (apply Dnm; tauto). rewrite den_nil in H0. exact H0.
-    - assert (Nn : nil_over A (r :: t)) by (exact (exclude_rel_keys (fun k => In (fst k) A /\ snd k = MNil) _ _ _ Na X1)).
+    pose proof (has_bytes_den nm (exclude_rel_nonneg _ _ _ Oa X1)) as HB.
+    destruct (has_bytes nm) eqn:Ehb.
+    - assert (Nn : nil_over A nm) by (exact (exclude_rel_keys (fun k => In (fst k) A /\ snd k = MNil) _ _ _ Na X1)).
       rewrite (resolve_nil _ (nil_over_nil _ _ Nn)). cbn [fst snd app].
       intros H. inversion H. subst. split; [reflexivity|]. right.
-      exists a, code, (r :: t).
+      exists a, code, nm.
       split; [reflexivity|]. split; [exact Npa|]. split; [reflexivity|]. split; [reflexivity|]. split; [exact Dnm|].
-      destruct (exclude_pointed arefs prev (r :: t) Oa (resolved_pointed _ S0 P0) X1 ltac:(discriminate)) as (x & m & j & Dj).
-        apply Dnm in Dj. exists x, j. tauto.
+      destruct (proj1 HB eq_refl) as (x & m & j & Dj).
+      apply Dnm in Dj. exists x, j. tauto.
+    - intros H. inversion H. subst. split; [reflexivity|]. left. split; [reflexivity|].
+      intros (a' & code' & _ & _ & X & x & j & C & NC). inversion X. subst code'.
+      assert (Dj : den nm x MNil j) by (apply Dnm; tauto).
+      assert (T : false = true) by (apply HB; exists x, MNil, j; exact Dj). discriminate.
   Qed.
 
   Lemma zlen_snoc {T} (l : list T) x : zlen (l ++ [x]) = zlen l + 1.
@@ -518,7 +562,7 @@ Section Sizes.
   Proof. rewrite firstn_app, Nat.sub_diag, firstn_all. cbn [firstn]. apply app_nil_r. Qed.
 
   Lemma vap_go_spec A : ArtsDist A -> forall l pre measured out,
-    Forall (wf_step A) l -> Forall pos_step l -> inv A pre measured ->
+    Forall (wf_step A) l -> inv A pre measured ->
     vap_go (zlen pre) measured (last_actor None pre) l = Ok out ->
     (forall v, In v out -> exists i st a code,
         (length pre <= i)%nat /\ vi_step v = Z.of_nat i /\ vi_kind v = 4 /\
@@ -528,11 +572,11 @@ Section Sizes.
     (forall i st a code, (length pre <= i)%nat -> takes_over (pre ++ l) i st a -> s_code st = Some code ->
         (exists x j, unprot (pre ++ l) i code x j) -> exists v, In v out /\ vi_step v = Z.of_nat i).
   Proof.
-    intros AD. induction l as [|st t IH]; intros pre measured out W P I E.
+    intros AD. induction l as [|st t IH]; intros pre measured out W I E.
     { cbn [vap_go] in E. inversion E. subst out. split; [intros v []|].
       intros i st a code Hi (Hn & _) _ _. rewrite app_nil_r in Hn.
       assert (X : nth_error pre i <> None) by (rewrite Hn; discriminate). apply nth_error_Some in X. lia. }
-    inversion W as [|? ? Wst Wt]; subst. inversion P as [|? ? Pst Pt]; subst.
+    inversion W as [|? ? Wst Wt]; subst.
     cbn [vap_go] in E. cbv zeta in E.
     pose proof Wst as (Sm & Im & _).
     rewrite (resolve_std _ Sm) in E. cbn [fst snd app] in E.
@@ -542,11 +586,11 @@ Section Sizes.
     destruct (vap_go (zlen pre + 1) cur pa' t) as [rest| | |] eqn:Erest; try discriminate. cbn [bind] in E.
     inversion E. subst out. clear E.
     pose proof (inv_step A pre measured st cur I Sm Im Ecur) as I'.
-    destruct (vap_actor_spec A _ pre _ _ _ _ _ _ AD I Wst Pst Eact) as (Epa & Cases).
+    destruct (vap_actor_spec A _ pre _ _ _ _ _ _ AD I Wst Eact) as (Epa & Cases).
     assert (Epa' : pa' = last_actor None (pre ++ [st])).
     { rewrite last_actor_app. cbn [last_actor]. exact Epa. }
     rewrite <- zlen_snoc with (x := st) in Erest. rewrite Epa' in Erest.
-    specialize (IH (pre ++ [st]) cur rest Wt Pt I' Erest).
+    specialize (IH (pre ++ [st]) cur rest Wt I' Erest).
     rewrite <- app_assoc in IH. cbn [app] in IH. destruct IH as (IH1 & IH2).
     assert (Len : length (pre ++ [st]) = S (length pre)) by (rewrite app_length; cbn [length]; lia).
     split.
@@ -573,36 +617,35 @@ Section Sizes.
       takes over there and some byte of its code was not measured before *)
 
   Definition WFlog (A : list art) (l : list step) : Prop := Forall (wf_step A) l.
-  Definition PositiveCode (l : list step) : Prop := Forall pos_step l.
 
-  Theorem actor_sound A l out : ArtsDist A -> WFlog A l -> PositiveCode l -> vap l = Ok out ->
+  Theorem actor_sound A l out : ArtsDist A -> WFlog A l -> vap l = Ok out ->
     forall v, In v out -> exists i st a code,
       vi_step v = Z.of_nat i /\ vi_kind v = 4 /\ takes_over l i st a /\ s_code st = Some code /\
       (forall x m j, den (vi_refs v) x m j <-> m = MNil /\ unprot l i code x j) /\
       (exists x j, unprot l i code x j).
   Proof.
-    intros AD W P E v Iv. unfold vap in E.
-    destruct (vap_go_spec A AD l [] [] out W P (inv_nil A) E) as (H1 & _).
+    intros AD W E v Iv. unfold vap in E.
+    destruct (vap_go_spec A AD l [] [] out W (inv_nil A) E) as (H1 & _).
     destruct (H1 v Iv) as (i & st & a & code & _ & R). exists i, st, a, code. exact R.
   Qed.
 
-  Theorem actor_iff A l out : ArtsDist A -> WFlog A l -> PositiveCode l -> vap l = Ok out ->
+  Theorem actor_iff A l out : ArtsDist A -> WFlog A l -> vap l = Ok out ->
     forall i, (exists v, In v out /\ vi_step v = Z.of_nat i) <->
       (exists st a code, takes_over l i st a /\ s_code st = Some code /\ exists x j, unprot l i code x j).
   Proof.
-    intros AD W P E i. unfold vap in E.
-    destruct (vap_go_spec A AD l [] [] out W P (inv_nil A) E) as (H1 & H2). cbn [app] in *. split.
+    intros AD W E i. unfold vap in E.
+    destruct (vap_go_spec A AD l [] [] out W (inv_nil A) E) as (H1 & H2). cbn [app] in *. split.
     - intros (v & Iv & Sv). destruct (H1 v Iv) as (i' & st & a & code & _ & Si & _ & T & Ec & _ & U).
       assert (i' = i) by lia. subst i'. exists st, a, code. tauto.
     - intros (st & a & code & T & Ec & U). apply (H2 i st a code); [cbn; lia | assumption..].
   Qed.
 
-  Theorem actor_exact_ranges A l out : ArtsDist A -> WFlog A l -> PositiveCode l -> vap l = Ok out ->
+  Theorem actor_exact_ranges A l out : ArtsDist A -> WFlog A l -> vap l = Ok out ->
     forall v, In v out -> exists i st a code,
       vi_step v = Z.of_nat i /\ takes_over l i st a /\ s_code st = Some code /\
       forall x m j, den (vi_refs v) x m j <-> m = MNil /\ unprot l i code x j.
   Proof.
-    intros AD W P E v Iv. destruct (actor_sound A l out AD W P E v Iv) as (i & st & a & code & S & _ & T & Ec & D & _).
+    intros AD W E v Iv. destruct (actor_sound A l out AD W E v Iv) as (i & st & a & code & S & _ & T & Ec & D & _).
     exists i, st, a, code. tauto.
   Qed.
 
@@ -610,77 +653,73 @@ End Sizes.
 
 (** ** The final-coverage validator *)
 
-  Lemma vfc_measured_spec : forall l m0 m, Forall okref m0 -> NoOverflow (meas_upto l) ->
-    vfc_measured m0 l = Ok m ->
-    Forall okref m /\
-    (forall K : art * mapper -> Prop, Forall (fun r => K (rkey r)) m0 -> Forall (fun r => K (rkey r)) (meas_upto l) ->
-       Forall (fun r => K (rkey r)) m) /\
-    (forall a mp k, den m a mp k <-> den m0 a mp k \/ den (meas_upto l) a mp k).
+  (** the accumulation loop maintains the invariant of the actors validator:
+      [measured] is resolved and denotes exactly the bytes measured so far *)
+  Lemma vfc_measured_inv sz A : forall l pre measured m,
+    Forall (wf_step sz A) l -> inv sz A pre measured ->
+    vfc_measured measured l = Ok m -> inv sz A (pre ++ l) m.
   Proof.
-    induction l as [|st t IH]; intros m0 m O0 Ol E; cbn [vfc_measured] in E.
-    { inversion E. subst m. split; [exact O0|]. split; [intros K H _; exact H|].
-      intros a mp k. unfold meas_upto. cbn [flat_map]. rewrite den_nil. tauto. }
-    unfold meas_upto in Ol. cbn [flat_map] in Ol. apply Forall_app in Ol. destruct Ol as (Os & Ot).
-    destruct (sm (m0 ++ s_meas st)) as [m1| | |] eqn:E1; try discriminate. cbn [bind] in E.
-    apply sm_rel in E1.
-    assert (O01 : NoOverflow (m0 ++ s_meas st)) by (apply Forall_app; split; assumption).
-    destruct (IH m1 m (sortmerge_ok _ _ O01 E1) Ot E) as (Om & Km & Dm).
-    split; [exact Om|]. split.
-    - intros K H0 Hl. unfold meas_upto in Hl. cbn [flat_map] in Hl. apply Forall_app in Hl. destruct Hl as (Hs & Ht).
-      apply Km; [|exact Ht]. apply (sortmerge_keys K _ _ (proj2 (Forall_app _ _ _) (conj H0 Hs)) E1).
-    - intros a mp k. rewrite Dm, (sortmerge_den _ _ O01 E1). unfold meas_upto. cbn [flat_map]. rewrite !den_app. tauto.
+    induction l as [|st t IH]; intros pre measured m W I E; cbn [vfc_measured] in E.
+    { inversion E. subst m. rewrite app_nil_r. exact I. }
+    inversion W as [|? ? (Sm & Im & _) Wt]; subst.
+    unfold resolved in E. rewrite (resolve_std sz _ Sm) in E. cbn [fst] in E.
+    destruct (sm (measured ++ map (res_ref sz) (s_meas st))) as [m1| | |] eqn:E1; try discriminate. cbn [bind] in E.
+    pose proof (inv_step sz A pre measured st m1 I Sm Im E1) as I1.
+    specialize (IH (pre ++ [st]) m1 m Wt I1 E). rewrite <- app_assoc in IH. exact IH.
   Qed.
 
-  Lemma seen_after_den files measured a m k :
-    den (seen_after files measured) a m k <-> den measured a m k.
+  Lemma nil_over_den A s a m k : nil_over A s -> den s a m k -> m = MNil.
   Proof.
-    unfold seen_after. destruct measured as [|r [|r' t]]; try reflexivity.
-    destruct (sm files); try reflexivity. destruct (touched a0 r); try reflexivity.
-    rewrite !den_cons, !den_nil, hit_set_ranges. unfold hit.
-    rewrite (in_ranges_perm_iff _ _ k (sort_off_perm (rranges r))). tauto.
+    intros N D. apply den_in in D. destruct D as (r & I & (_ & M & _)).
+    unfold nil_over in N. rewrite Forall_forall in N. destruct (N r I) as (_ & Mr). unfold rkey in Mr. cbn [snd] in Mr. congruence.
   Qed.
 
-  Theorem final_exact files l out :
-    Distinguishable (files ++ meas_upto l) -> NoOverflow (files ++ meas_upto l) -> Forall pointed files ->
+  (** [files] = the references UEFIFiles returned (physical addresses); both sides
+      are resolved before the subtraction, so the verdict is about BYTES of the
+      artifacts, whatever address space a measurement was given in *)
+  Theorem final_exact sz A files l out :
+    ArtsDist A -> std_refs sz files -> arts_in A files -> Forall pointed files -> WFlog sz A l ->
     l <> [] -> vfc (Ok files) l = Ok out ->
     exists nm measured,
-      (forall a m k, den measured a m k <-> den (meas_upto l) a m k) /\
-      (forall a m k, den nm a m k <-> den files a m k /\ ~ den (meas_upto l) a m k) /\
-      (nm = [] <-> forall a m k, den files a m k -> den (meas_upto l) a m k) /\
+      (forall a m j, den measured a m j <-> m = MNil /\ covers sz (meas_upto l) a j) /\
+      (forall a m j, den nm a m j <-> m = MNil /\ covers sz files a j /\ ~ covers sz (meas_upto l) a j) /\
+      (nm = [] <-> forall a j, covers sz files a j -> covers sz (meas_upto l) a j) /\
       out = match nm with
             | [] => []
-            | _ => [mkVI (zlen l - 1) 6 (resolved nm) (resolved measured)]
+            | _ => [mkVI (zlen l - 1) 6 nm measured]
             end.
   Proof.
-    intros D O P NE E. unfold vfc in E. destruct l as [|st0 t0]; [congruence|].
+    intros AD Sf If Pf W NE E. unfold vfc in E. destruct l as [|st0 t0]; [congruence|].
     set (l := st0 :: t0) in *. clearbody l. clear NE.
-    apply Forall_app in O. destruct O as (Of & Ol).
     destruct (vfc_measured [] l) as [measured| | |] eqn:Em; try discriminate. cbn [bind] in E.
-    destruct (vfc_measured_spec l [] measured ltac:(constructor) Ol Em) as (Om & Km & Dm).
-    destruct (exclude files measured) as [nm| | |] eqn:En; try discriminate. cbn [bind] in E.
+    pose proof (vfc_measured_inv sz A l [] [] measured W (inv_nil sz A) Em) as (Nm & Om & Dm). cbn [app] in Dm.
+    unfold resolved in E. rewrite (resolve_std sz _ Sf) in E. cbn [fst] in E.
+    set (fr := map (res_ref sz) files) in *.
+    destruct (exclude fr measured) as [nm| | |] eqn:En; try discriminate. cbn [bind] in E.
     pose proof (exclude_is_rel _ _ _ En) as X.
-    assert (Dist : Distinguishable (files ++ measured)).
-    { unfold Distinguishable in *. eapply DistK_incl; [exact D|].
-      intros k I. unfold keys in I. rewrite map_app in I. apply in_app_or in I.
-      unfold keys. rewrite map_app. apply in_or_app. destruct I as [I | I]; [left; exact I | right].
-      specialize (Km (fun k => In k (map rkey (meas_upto l))) ltac:(constructor)).
-      assert (F : Forall (fun r => In (rkey r) (map rkey (meas_upto l))) (meas_upto l)).
-      { apply Forall_forall. intros r Ir. apply in_map. exact Ir. }
-      specialize (Km F). rewrite Forall_forall in Km.
-      apply in_map_iff in I. destruct I as (r & <- & Ir). apply Km. exact Ir. }
-    pose proof (exclude_exact files measured nm Dist (proj2 (Forall_app _ _ _) (conj Of Om)) X) as Dn.
-    assert (Dm' : forall a m k, den measured a m k <-> den (meas_upto l) a m k).
-    { intros a m k. rewrite Dm, den_nil. tauto. }
-    assert (Dn' : forall a m k, den nm a m k <-> den files a m k /\ ~ den (meas_upto l) a m k).
-    { intros a m k. rewrite Dn, Dm'. tauto. }
-    exists nm, (seen_after files measured). split; [intros a m k; rewrite seen_after_den; apply Dm'|]. split; [exact Dn'|]. split.
+    assert (Nf : nil_over A fr) by (apply resolved_nil_over; exact If).
+    assert (Of : NoOverflow fr) by (apply resolved_ok; exact Sf).
+    assert (Dmm : forall a m j, den measured a m j <-> m = MNil /\ covers sz (meas_upto l) a j).
+    { intros a m j. split.
+      - intros D. pose proof (nil_over_den A _ _ _ _ Nm D) as ->. split; [reflexivity|]. apply Dm. exact D.
+      - intros (-> & C). apply Dm. exact C. }
+    assert (Dnm : forall a m j, den nm a m j <-> m = MNil /\ covers sz files a j /\ ~ covers sz (meas_upto l) a j).
+    { intros a m j.
+      rewrite (exclude_exact fr measured nm (nil_over_dist A _ AD (nil_over_app _ _ _ Nf Nm))
+                 (proj2 (Forall_app _ _ _) (conj Of Om)) X a m j).
+      unfold fr. rewrite (den_resolved sz files a m j Sf), Dmm. tauto. }
+    assert (Nn : nil_over A nm) by (exact (exclude_rel_keys (fun k => In (fst k) A /\ snd k = MNil) _ _ _ Nf X)).
+    exists nm, measured. split; [exact Dmm|]. split; [exact Dnm|]. split.
     - split.
-      + intros -> a m k Hf. destruct (denb (meas_upto l) a m k) eqn:B; [apply denb_spec; exact B|].
-        apply denb_false in B. exfalso. assert (H : den [] a m k) by (apply Dn'; tauto). rewrite den_nil in H. exact H.
+      + intros -> a j Hf. destruct (denb measured a MNil j) eqn:B; [apply Dm; apply denb_spec; exact B|].
+        apply denb_false in B. exfalso.
+        assert (H : den [] a MNil j) by (apply Dnm; rewrite <- Dm; tauto). rewrite den_nil in H. exact H.
       + intros H. destruct nm as [|r t]; [reflexivity|]. exfalso.
-        destruct (exclude_pointed files measured (r :: t) Of P X ltac:(discriminate)) as (a & m & k & Hk).
-        apply Dn' in Hk. destruct Hk as (Hf & Hn). apply Hn. apply H. exact Hf.
-    - destruct nm; inversion E; reflexivity.
+        destruct (exclude_pointed fr measured (r :: t) Of (resolved_pointed sz _ Sf Pf) X ltac:(discriminate)) as (a & m & k & Hk).
+        apply Dnm in Hk. destruct Hk as (_ & Hf & Hn). apply Hn. apply H. exact Hf.
+    - unfold resolved in E. rewrite (resolve_nil _ (nil_over_nil _ _ Nm)) in E.
+      destruct nm as [|r t]; [inversion E; reflexivity|].
+      rewrite (resolve_nil _ (nil_over_nil _ _ Nn)) in E. cbn [fst] in E. inversion E. reflexivity.
   Qed.
 
   Lemma final_empty_log files : vfc files [] = Ok [].
@@ -795,14 +834,6 @@ Definition wf_logb (sz : Z -> Z) (A : list art) (l : list step) : bool := forall
 Lemma wf_logb_spec sz A l : wf_logb sz A l = true -> WFlog sz A l.
 Proof. unfold wf_logb, WFlog. rewrite forallb_forall. intros H. apply Forall_forall. intros st I. apply wf_stepb_spec. apply H. exact I. Qed.
 
-Definition pos_logb (l : list step) : bool :=
-  forallb (fun st => match s_code st with Some c => forallb pointedb c | None => true end) l.
-Lemma pos_logb_spec l : pos_logb l = true -> PositiveCode l.
-Proof.
-  unfold pos_logb, PositiveCode, pos_step. rewrite forallb_forall. intros H. apply Forall_forall. intros st I. specialize (H st I).
-  destruct (s_code st); [|exact Logic.I]. rewrite forallb_forall in H. apply Forall_forall. intros r Ir. apply pointedb_spec. apply H. exact Ir.
-Qed.
-
 Definition arts_distb (A : list art) : bool :=
   forallb (fun a1 => forallb (fun a2 => Bool.eqb (aid a1 =? aid a2) (tname a1 =? tname a2)) A) A.
 Lemma arts_distb_spec A : arts_distb A = true -> ArtsDist A.
@@ -844,13 +875,12 @@ Definition d6_log : list step :=
    mkStep (Some 1) (Some [mkRef xraw1 MNil [mkR 0 16]]) [] []].
 
 Theorem actor_iff_refuted : exists sz A l out i,
-  WFlog sz A l /\ PositiveCode l /\ vap l = Ok out /\
+  WFlog sz A l /\ vap l = Ok out /\
   (exists st a code, takes_over l i st a /\ s_code st = Some code /\ exists x j, unprot sz l i code x j) /\
   ~ (exists v, In v out /\ vi_step v = Z.of_nat i).
 Proof.
   exists xsz64, [xraw1; xraw2], d6_log, [], 1%nat.
   split; [apply wf_logb_spec; vm_compute; reflexivity|].
-  split; [apply pos_logb_spec; vm_compute; reflexivity|].
   split; [vm_compute; reflexivity|]. split.
   - exists (mkStep (Some 1) (Some [mkRef xraw1 MNil [mkR 0 16]]) [] []), 1, [mkRef xraw1 MNil [mkR 0 16]].
     split; [split; [reflexivity|]; split; [reflexivity | cbn; discriminate]|]. split; [reflexivity|].
@@ -861,52 +891,47 @@ Proof.
   - intros (v & [] & _).
 Qed.
 
-(** an actor whose code reference has no byte is reported when nothing of its
-    artifact was measured *)
+(** an actor whose code reference has no byte is not reported, whether or not
+    something of its artifact was measured before (the input of the former
+    finding C10-empty-code-range) *)
 Definition ximg : art := mkArt 1 1 false (repeat 0 64%nat).
 Definition empty_code_log : list step := [mkStep (Some 1) (Some [mkRef ximg MNil [mkR 5 0]]) [] []].
+Definition empty_code_log2 : list step :=
+  [mkStep None None [mkRef ximg MNil [mkR 40 8]] [];
+   mkStep (Some 1) (Some [mkRef ximg MNil [mkR 5 0]; mkRef ximg MNil []]) [] []].
 
-Theorem actor_empty_code_refuted : exists sz A l out i,
-  ArtsDist A /\ WFlog sz A l /\ vap l = Ok out /\
-  (exists v, In v out /\ vi_step v = Z.of_nat i) /\
-  ~ (exists st a code, takes_over l i st a /\ s_code st = Some code /\ exists x j, unprot sz l i code x j).
+Lemma empty_code_hyps : ArtsDist [ximg] /\ WFlog xsz64 [ximg] empty_code_log /\ WFlog xsz64 [ximg] empty_code_log2.
 Proof.
-  exists xsz64, [ximg], empty_code_log, [mkVI 0 4 [mkRef ximg MNil [mkR 5 0]] []], 0%nat.
   split; [apply arts_distb_spec; vm_compute; reflexivity|].
-  split; [apply wf_logb_spec; vm_compute; reflexivity|].
-  split; [vm_compute; reflexivity|]. split.
-  - eexists. split; [left; reflexivity | reflexivity].
-  - intros (st & a & code & (Hn & _) & Ec & x & j & (m & k & D & _) & _).
-    cbn in Hn. inversion Hn. subst st. cbn in Ec. inversion Ec. subst code.
-    apply den_cons in D. destruct D as [(_ & _ & H) | D]; [|apply den_nil in D; exact D].
-    cbn [rranges] in H. apply Exists_cons in H. destruct H as [H | H]; [unfold inr in H; cbn in H; lia | inversion H].
+  split; apply wf_logb_spec; vm_compute; reflexivity.
 Qed.
+Lemma empty_code_vap : vap empty_code_log = Ok [] /\ vap empty_code_log2 = Ok [].
+Proof. split; vm_compute; reflexivity. Qed.
 
 (** final coverage: the file is given by physical addresses (as UEFIFiles does),
-    the whole 64-byte image is measured by an image-offset reference: every byte
-    of the file is covered, an issue is reported nevertheless *)
+    the whole 64-byte image is measured by an image-offset reference: no issue
+    (the input of the former finding C10-final-mixed-address-space); measured
+    half by offsets and half by physical addresses: no issue either; only the
+    first 16 bytes measured: bytes 16..24 of the file are reported *)
 Definition mixed_files : list ref := [mkRef ximg MPhys [mkR (W32 - 64 + 8) 16]].
 Definition mixed_log : list step := [mkStep None None [mkRef ximg MNil [mkR 0 64]] []].
+Definition mixed_log2 : list step :=
+  [mkStep None None [mkRef ximg MNil [mkR 0 12]] []; mkStep None None [mkRef ximg MPhys [mkR (W32 - 64 + 12) 52]] []].
+Definition mixed_log3 : list step := [mkStep None None [mkRef ximg MNil [mkR 0 16]] []].
 
-Theorem final_mixed_refuted : exists sz A files l out,
-  std_refs sz files /\ WFlog sz A l /\ Forall pointed files /\
-  vfc (Ok files) l = Ok out /\ out <> [] /\
-  (forall a j, covers sz files a j -> covers sz (meas_upto l) a j).
+Lemma mixed_hyps : ArtsDist [ximg] /\ std_refs xsz64 mixed_files /\ arts_in [ximg] mixed_files /\ Forall pointed mixed_files /\
+  WFlog xsz64 [ximg] mixed_log /\ WFlog xsz64 [ximg] mixed_log2 /\ WFlog xsz64 [ximg] mixed_log3.
 Proof.
-  exists xsz64, [ximg], mixed_files, mixed_log, [mkVI 0 6 [mkRef ximg MNil [mkR 8 16]] [mkRef ximg MNil [mkR 0 64]]].
+  split; [apply arts_distb_spec; vm_compute; reflexivity|].
   split; [apply (wf_refsb_spec xsz64 [ximg]); vm_compute; reflexivity|].
-  split; [apply wf_logb_spec; vm_compute; reflexivity|].
+  split; [apply (wf_refsb_spec xsz64 [ximg]); vm_compute; reflexivity|].
   split; [constructor; [apply pointedb_spec; vm_compute; reflexivity | constructor]|].
-  split; [vm_compute; reflexivity|]. split; [discriminate|].
-  intros a j (m & k & D & E).
-  apply den_cons in D. destruct D as [(Ha & Hm & H) | D]; [|apply den_nil in D; destruct D].
-  cbn in Ha, Hm. subst a m. cbn [rranges mixed_files] in H.
-  apply Exists_cons in H. destruct H as [H | H]; [|inversion H]. unfold inr in H. cbn [roff rlen] in H.
-  unfold off_of, base, xsz64 in E.
-  exists MNil, j. split; [|reflexivity].
-  apply den_cons. left. split; [reflexivity|]. split; [reflexivity|]. cbn [rranges].
-  apply Exists_cons. left. unfold inr. cbn [roff rlen]. unfold W32 in *. lia.
+  split; [|split]; apply wf_logb_spec; vm_compute; reflexivity.
 Qed.
+Lemma mixed_vfc :
+  vfc (Ok mixed_files) mixed_log = Ok [] /\ vfc (Ok mixed_files) mixed_log2 = Ok [] /\
+  vfc (Ok mixed_files) mixed_log3 = Ok [mkVI 0 6 [mkRef ximg MNil [mkR 16 8]] [mkRef ximg MNil [mkR 0 16]]].
+Proof. split; [|split]; vm_compute; reflexivity. Qed.
 
 (** ** A non-trivial log satisfying all hypotheses: the D7 pattern *)
 
@@ -920,10 +945,9 @@ Definition ex_log : list step :=
    mkStep (Some 1) (Some [mkRef ximg MPhys [mkR (W32 - 64 + 32) 8]]) [] [8; 9];
    mkStep (Some 2) (Some [mkRef ximg MNil [mkR 0 1; mkR 34 4]]) [] []].
 
-Lemma ex_log_hyps : ArtsDist [ximg] /\ WFlog xsz64 [ximg] ex_log /\ PositiveCode ex_log.
+Lemma ex_log_hyps : ArtsDist [ximg] /\ WFlog xsz64 [ximg] ex_log.
 Proof.
-  split; [apply arts_distb_spec; vm_compute; reflexivity|].
-  split; [apply wf_logb_spec; vm_compute; reflexivity | apply pos_logb_spec; vm_compute; reflexivity].
+  split; [apply arts_distb_spec; vm_compute; reflexivity | apply wf_logb_spec; vm_compute; reflexivity].
 Qed.
 
 Lemma ex_log_vap :
